@@ -14,6 +14,9 @@ CLAIMS = {
  "C20": dict(ref="7/C20",
    text="Proof (Coq): for every byte string v the bytes dulwich writes for v after 'key =' are read back as v by dulwich's _parse_string and by git's parse_value (transcribed from config.c 2.39 incl. CRLF folding and whitespace-to-space rule); every subsection name the writer accepts is read back unchanged. Correspondence: writer and both readers vs dulwich and the git binary, exhaustive over the quantifier's 11-symbol alphabet to length 4/5 plus VT/FF/0x80 mixes and random values; dulwich reads files git wrote. Partial: whole-file behaviour (section headers, key case rules, multi-value order, set/add sequences) is checked on the implementation and against git config --list, without a theorem.",
    note="Three theorems closed under the global context. git 2.39.5 is the reference reader/writer; its parse_value is transcribed by hand and validated against the binary on every run."),
+ "C16": dict(ref="7/C16",
+   text="Proof (Coq): (1) dulwich's check_ref_format and git's check_refname_format (refs.c, transcribed) accept exactly the same names, for every NUL-free byte string of any length — bisimulation of the two automata over all 255 bytes with the 1843 reachable product states enumerated by vm_compute (finite state space, unbounded names). (2) files backend as a two-level store (loose + packed): pack_refs changes no visible ref and no resolution through symbolic refs, in every state; set_if_equals / add_if_new / remove_if_equals / set_symbolic_ref change exactly the resolved name and succeed exactly when their condition holds, otherwise leave the store unchanged; a deleted ref cannot resurface from packed-refs. Correspondence: names exhaustive to length 3-4 over a 21-symbol class alphabet vs dulwich and the git binary; operation sequences (loose/packed/symbolic/HEAD, D/F collisions, reopen) on a real DiskRefsContainer vs the model step by step, git for-each-ref/symbolic-ref on the resulting directory, Dict and Reftable backends on the restricted sequence class. Partial: directory bookkeeping is abstracted to the collision rule; packed-refs file codec, peeled values and NamespacedRefsContainer are exercised, not proved; names with NUL cannot be given to the git binary.",
+   note="Nine theorems closed under the global context. git 2.39.5 check-ref-format / for-each-ref / symbolic-ref are oracles."),
 }
 props = [json.loads(l) for l in open(os.path.join(V, "properties.jsonl"))]
 base = json.load(open("/root/.vp/BASELINE.json"))
